@@ -294,6 +294,17 @@ struct Cfg {
     base: Decimal,
     fee: Decimal,
     latency_ms: u64,
+    /// configuration shape (9th token of `sys` = 1): the engine also TRACKS an exchange that is not traded
+    /// (`ExchangeId::Simulated`, sorts BEFORE `Mock`: the mocked exchange is ExchangeIndex(1), its instruments and
+    /// assets come after the other one's), with one instrument whose exchange name (`I0`) and asset names
+    /// (`b0`, `q`) are those of the mocked exchange's first instrument. No op names it.
+    /// 9th token = 2: the same, but the tracked exchange is `ExchangeId::BinanceSpot`, which sorts AFTER `Mock`
+    /// (indices of the mocked exchange unchanged; the same-named assets / instrument come LAST in the tables).
+    tracked: u8,
+}
+
+fn ex_tracked(cfg: &Cfg) -> ExchangeId {
+    if cfg.tracked == 2 { ExchangeId::BinanceSpot } else { ExchangeId::Simulated }
 }
 
 fn instruments(cfg: &Cfg) -> IndexedInstruments {
@@ -304,6 +315,15 @@ fn instruments(cfg: &Cfg) -> IndexedInstruments {
             format!("i{j}"),
             format!("I{j}"),
             Underlying::new(format!("b{j}"), "q".to_string()),
+            None,
+        ));
+    }
+    if cfg.tracked != 0 {
+        b = b.add_instrument(Instrument::spot(
+            ex_tracked(cfg),
+            "u0".to_string(),
+            "I0".to_string(),
+            Underlying::new("b0".to_string(), "q".to_string()),
             None,
         ));
     }
@@ -346,6 +366,8 @@ struct Labels {
     asset_idx: Vec<usize>,
     /// asset label per AssetIndex
     asset_label: Vec<usize>,
+    /// ExchangeIndex of the mocked exchange
+    ex: usize,
 }
 
 fn asset_name(k: usize, label: usize) -> String {
@@ -366,15 +388,20 @@ impl Labels {
             .map(|l| {
                 ii.assets()
                     .iter()
-                    .position(|a| a.value.asset.name_exchange.as_ref() == asset_name(cfg.k, l))
+                    .position(|a| a.value.exchange == EX && a.value.asset.name_exchange.as_ref() == asset_name(cfg.k, l))
                     .unwrap()
             })
             .collect();
-        let mut asset_label = vec![0; asset_idx.len()];
+        let mut asset_label = vec![0; ii.assets().len()];
         for (l, i) in asset_idx.iter().enumerate() {
             asset_label[*i] = l;
         }
-        Self { ins_idx, asset_idx, asset_label }
+        let ex = ii.exchanges().iter().position(|e| e.value == EX).unwrap();
+        Self { ins_idx, asset_idx, asset_label, ex }
+    }
+    /// exchange label: 0 = the mocked exchange
+    fn ex_label(&self, idx: usize) -> usize {
+        if idx == self.ex { 0 } else { 1 + idx }
     }
     fn ins_label(&self, idx: usize) -> usize {
         self.ins_idx.iter().position(|x| *x == idx).unwrap_or(idx)
@@ -398,7 +425,7 @@ fn fmt_side(s: Side) -> &'static str {
 
 fn key(l: &Labels, ins: usize, cid: &str) -> OrderKey<ExchangeIndex, InstrumentIndex> {
     OrderKey {
-        exchange: ExchangeIndex(0),
+        exchange: ExchangeIndex(l.ex),
         instrument: InstrumentIndex(l.ins_idx[ins]),
         strategy: StrategyId::new("verif"),
         cid: ClientOrderId::new(cid),
@@ -447,7 +474,10 @@ fn parse_filter(l: &Labels, s: &str) -> InstrumentFilter {
     let (kind, list) = s.split_once(':').unwrap();
     match kind {
         "ex" => InstrumentFilter::Exchanges(OneOrMany::from_iter(
-            list.split(',').map(|x| ExchangeIndex(x.parse::<usize>().unwrap())),
+            list.split(',').map(|x| {
+                assert_eq!(x, "0", "one exchange");
+                ExchangeIndex(l.ex)
+            }),
         )),
         "ins" => InstrumentFilter::Instruments(OneOrMany::from_iter(
             list.split(',').map(|x| InstrumentIndex(l.ins_idx[x.parse::<usize>().unwrap()])),
@@ -459,7 +489,7 @@ fn parse_filter(l: &Labels, s: &str) -> InstrumentFilter {
 fn fmt_cancel(l: &Labels, r: &OrderRequestCancel<ExchangeIndex, InstrumentIndex>) -> String {
     format!(
         "c:{}:{}:{}{}",
-        r.key.exchange.0,
+        l.ex_label(r.key.exchange.0),
         l.ins_label(r.key.instrument.0),
         canon_cid(l, &r.key.cid.0),
         r.state.id.as_ref().map(|id| format!(":{}", id.0)).unwrap_or_default()
@@ -469,7 +499,7 @@ fn fmt_cancel(l: &Labels, r: &OrderRequestCancel<ExchangeIndex, InstrumentIndex>
 fn fmt_open_req(l: &Labels, r: &OrderRequestOpen<ExchangeIndex, InstrumentIndex>) -> String {
     format!(
         "o:{}:{}:{}:{}:{}:{}",
-        r.key.exchange.0,
+        l.ex_label(r.key.exchange.0),
         l.ins_label(r.key.instrument.0),
         canon_cid(l, &r.key.cid.0),
         fmt_side(r.state.side),
@@ -490,7 +520,7 @@ fn fmt_filter(l: &Labels, f: &InstrumentFilter) -> String {
     match f {
         InstrumentFilter::None => "none".into(),
         InstrumentFilter::Exchanges(x) => {
-            format!("ex:{}", x.iter().map(|e| e.0.to_string()).collect::<Vec<_>>().join(","))
+            format!("ex:{}", x.iter().map(|e| l.ex_label(e.0).to_string()).collect::<Vec<_>>().join(","))
         }
         InstrumentFilter::Instruments(x) => format!(
             "ins:{}",
@@ -1136,7 +1166,12 @@ fn run_case(case: &Case, lines: &mut Vec<String>) {
                         base: parse_dec(&op[5]),
                         fee: parse_dec(&op[6]),
                         latency_ms: op[7].parse().unwrap(),
+                        tracked: if op.len() == 9 { op[8].parse().unwrap_or(9) } else { 0 },
                     };
+                    if op.len() > 9 || (op.len() == 9 && !["0", "1", "2"].contains(&op[8].as_str())) {
+                        lines.push("bad-op".into());
+                        continue;
+                    }
                     run = Some(build(cfg, lines).await);
                 }
                 _ => {
@@ -1254,7 +1289,7 @@ fn run() {
 /// 101 = 1 @ 100 at 1 %, quote 99 = 1 @ 100 at -1 %, base 1 / 0.5 = one sell), prices and quantities with many digits and of
 /// extreme but exact magnitude (1e-8, 1e-4, 1e12; every product stays within 28 digits), latencies 1 ms / 500 ms (below the 1 s request timeout), up to three open requests and two cancel requests per
 /// call, cancel requests that carry an exchange order id
-fn gen_case(out: &mut Out, rng: &mut Rng, id: &str, thorough: bool, dom: bool) {
+fn gen_case(out: &mut Out, rng: &mut Rng, id: &str, thorough: bool, dom: bool, shape: bool) {
     out.case(id);
     let k = rng.range(1, 3) as usize;
     let quote = if dom { *rng.pick(&["0", "99", "100", "101", "250.5", "1000", "2000000000000"]) } else { *rng.pick(&["300", "1000", "100000"]) };
@@ -1267,7 +1302,12 @@ fn gen_case(out: &mut Out, rng: &mut Rng, id: &str, thorough: bool, dom: bool) {
     let open_qtys: &[&str] = if dom { &["1", "1", "2", "0.5", "20", "3", "0.00000001", "0.125"] } else { &["1", "1", "2", "0.5", "20"] };
     let mkt_prices: &[&str] = if dom { &["50", "100", "101", "0.5", "99.99", "1000000000000"] } else { &["50", "100", "101"] };
     let mkt_qtys: &[&str] = if dom { &["1", "2", "0.5", "20", "0.00000001"] } else { &["1", "2", "0.5", "20"] };
-    out.line(format!("sys {feed} {trading} {k} {quote} {base} {fee} {latency}"));
+    // the configuration-shape family (cases `cfg<n>`, own PRNG stream): a tracked-but-not-traded exchange in front
+    if shape {
+        out.line(format!("sys {feed} {trading} {k} {quote} {base} {fee} {latency} {}", if rng.chance(65) { 1 } else { 2 }));
+    } else {
+        out.line(format!("sys {feed} {trading} {k} {quote} {base} {fee} {latency}"));
+    }
     let cid_pool = [1u64, 2, 3, 4, 5, 6];
     let mut next_cid = 10u64;
     // (instrument, cid) of the open requests generated so far: cancel requests mostly name one of them
@@ -1412,12 +1452,17 @@ fn generate(seed: u64, n_cases: usize, tier: &str) {
         }
     }
     for c in 0..n_cases {
-        gen_case(&mut out, &mut rng, &format!("r{}", c + 1), thorough, false);
+        gen_case(&mut out, &mut rng, &format!("r{}", c + 1), thorough, false, false);
     }
     // the input-domain family (own PRNG stream, so the cases above stay as they are): one case per 8 random ones
     let mut drng = Rng::new(seed ^ 0x444f_4d45);
     for c in 0..n_cases / 8 {
-        gen_case(&mut out, &mut drng, &format!("d{}", c + 1), thorough, true);
+        gen_case(&mut out, &mut drng, &format!("d{}", c + 1), thorough, true, false);
+    }
+    // the configuration-shape family (own PRNG stream): one case per 8 random ones
+    let mut crng = Rng::new(seed ^ 0x4346_4745);
+    for c in 0..n_cases / 8 {
+        gen_case(&mut out, &mut crng, &format!("cfg{}", c + 1), thorough, false, true);
     }
     out.flush();
 }
